@@ -545,14 +545,17 @@ def run(tier):
         # "answers every year of its range": with the interpreter's default window, and with its other documented window
         # (13 months: the year itself plus the following January), whose edge falls on Jan 1 instead of Dec 1
         items13 = [dict(it, zs_kwargs={"viewing_months": 13}) for it in items]
-        for tagw, its in (("", items), ("window13.", items13)):
+        # ... and with the basic (not in-place) selector and basic candidate finder, which tools/zinfo.py and tools/validate.py
+        # use when run without flags
+        items_basic = [dict(it, zs_kwargs={"in_place_transitions": False, "optimize_candidates": False}) for it in items]
+        for tagw, its in (("", items), ("window13.", items13), ("basicselector.", items_basic)):
             m = c03lib.run_py_workers(its, work / ("pydb" + tagw.strip(".")))
             for f in m["failed"]:
                 v.inconclusive_because("zonedbpy worker failed: " + f["stderr"][-300:])
             for w in m["witnesses"]:
                 w["key"] = w["key"].replace("c20:", "c20:zonedbpy-")
                 if tagw:
-                    w["zone_specifier_options"] = {"viewing_months": 13}
+                    w["zone_specifier_options"] = its[0]["zs_kwargs"]
                 v.violation(w["key"], "checked-in python database: " + w["what"], w)
             for k, n in m["counters"].items():
                 counters["zonedbpy." + tagw + k] = n
@@ -577,7 +580,7 @@ def run(tier):
             if total != want[1] or mm.group(3) != want[3]:
                 v.violation("c20:zinfo-differs-from-zic", "zinfo.py answer differs from zic on the database's own recorded lines",
                             {"zone": z, "date": local.isoformat(), "zinfo": mm.group(0), "zic": list(want[1:])})
-    need = {"determinism_files": 10, "python_zones_compared": 300, "cross.sweep.cross_probes": 100000, "zonedbpy.probes": 100000, "zonedbpy.window13.probes": 100000}
+    need = {"determinism_files": 10, "python_zones_compared": 300, "cross.sweep.cross_probes": 100000, "zonedbpy.probes": 100000, "zonedbpy.window13.probes": 100000, "zonedbpy.basicselector.probes": 100000}
     for k, n in need.items():
         if counters.get(k, 0) < n:
             v.inconclusive_because("counter %s=%s below %s" % (k, counters.get(k, 0), n))
